@@ -1,19 +1,182 @@
-(* Properties_C07.v (stage 1: the faithful model of the unrepaired code refutes two clauses) *)
+(* Properties_C07.v — C07: typed get/set follow the documented conversion rules without silent
+   corruption.  Theorems only; proofs are in ConvertFacts.v / ApiFacts.v.  The node-level functions
+   n_get_* / n_set_* model __config_setting_get_* / config_setting_set_* of libconfig.c; setter/getter/
+   typed_look/elem_getter are the accessor families built on them, tied to the code by ./check C07.
+
+   History: on the tree before /repo commit 94d9fd4 the faithful model refuted two clauses
+   (set_int on an INT64 setting failed; int -> float went through a 32-bit float: 16777217 was stored
+   as 16777216.0).  Both were repaired (known_findings.json, F10); the theorems below are about the
+   model of the repaired code. *)
 From Coq Require Import List ZArith Bool.
 Import ListNotations.
-From LC Require Import Base Tree Fp Lookup Api ApiStep.
+From LC Require Import Base Tree Fp Lookup Api ApiStep TreeFacts ApiFacts ConvertFacts.
 Local Open Scope Z_scope.
 
-(* "int and 64-bit int are interchangeable exactly when the value fits": an int always fits a 64-bit
-   setting, yet config_setting_set_int fails on one (libconfig.c:1035-1059 has no INT64 case) *)
-Theorem C07_set_int_on_int64_refuted :
-  exists s v, s_pl s = PInt64 0 /\ in_int v = true /\ n_set_int false s v = SFail.
-Proof. exists (new_setting None TInt64), 5. repeat split. Qed.
-Print Assumptions C07_set_int_on_int64_refuted.
+(* ---- int and 64-bit int are interchangeable exactly when the value fits ---- *)
+Theorem C07_int_int64_get : forall auto s z,
+  (s_pl s = PInt z -> n_get_int64 auto s = GOk z) /\
+  (s_pl s = PInt64 z -> n_get_int auto s = (if in_int z then GOk z else GFail)).
+Proof. intros; split; [apply get_int64_of_int | apply get_int_of_int64]. Qed.
+Print Assumptions C07_int_int64_get.
 
-(* "a 32-bit integer to float exactly": the value goes through (float) (libconfig.c:1050) *)
-Theorem C07_set_int_on_float_refuted :
-  exists s v s', s_pl s = PFloat 0 /\ in_int v = true /\ n_set_int true s v = SOk s' /\
-                 s_pl s' = PFloat (b64_of_Z 16777216) /\ v = 16777217.
-Proof. exists (new_setting None TFloat), 16777217. eexists. repeat split. Qed.
-Print Assumptions C07_set_int_on_float_refuted.
+Theorem C07_int_int64_set : forall auto s z v,
+  (s_pl s = PInt z ->
+   n_set_int64 auto s v = (if in_int v then SOk (set_pl s (PInt v)) else SFail)) /\
+  (s_pl s = PInt64 z -> n_set_int auto s v = SOk (set_pl s (PInt64 v))).
+Proof. intros; split; [apply set_int64_on_int | apply set_int_on_int64]. Qed.
+Print Assumptions C07_int_int64_set.
+
+(* ---- floats and integers convert only when auto-conversion is enabled ---- *)
+Theorem C07_no_autoconvert : forall s v,
+  ((forall b, s_pl s = PFloat b -> n_get_int false s = GFail /\ n_get_int64 false s = GFail) /\
+   (forall z, s_pl s = PInt z \/ s_pl s = PInt64 z -> n_get_float false s = GFail)) /\
+  ((forall b, s_pl s = PFloat b -> n_set_int false s v = SFail /\ n_set_int64 false s v = SFail) /\
+   (forall z, s_pl s = PInt z \/ s_pl s = PInt64 z -> n_set_float false s v = SFail)).
+Proof. intros; split; [apply no_autoconvert_get | apply no_autoconvert_set]. Qed.
+Print Assumptions C07_no_autoconvert.
+
+(* ---- ... a 32-bit integer to float exactly (both directions of the accessor pair):
+   b64_is_int b z says the double with bit pattern b is finite and is exactly the integer z ---- *)
+Theorem C07_int_to_float_exact : forall s z,
+  in_int z = true ->
+  (s_pl s = PInt z -> exists b, n_get_float true s = GOk b /\ b64_is_int b z) /\
+  (forall b0, s_pl s = PFloat b0 ->
+     exists s' b', n_set_int true s z = SOk s' /\ s_pl s' = PFloat b' /\ b64_is_int b' z).
+Proof.
+  intros s z Hz; split; [intros H; apply get_float_of_int_exact; assumption
+                        | intros b0 H; eapply set_int_on_float_exact; eassumption].
+Qed.
+Print Assumptions C07_int_to_float_exact.
+
+(* non-vacuity and the boundary that used to fail: 2^24 + 1 *)
+Example C07_exact_example :
+  n_set_int true (new_setting None TFloat) 16777217
+  = SOk (set_pl (new_setting None TFloat) (PFloat (b64_of_Z 16777217))) /\
+  b64_trunc (b64_of_Z 16777217) = 16777217.
+Proof. split; reflexivity. Qed.
+
+(* ---- booleans and strings never convert ---- *)
+Theorem C07_bool_string_never_convert : forall auto s v o,
+  (is_bool_or_string s ->
+     (n_get_int auto s = GFail /\ n_get_int64 auto s = GFail /\ n_get_float auto s = GFail /\
+      (forall z, s_pl s = PBool z -> n_get_string s = None) /\
+      (forall x, s_pl s = PStr x -> n_get_bool s = 0)) /\
+     (n_set_int auto s v = SFail /\ n_set_int64 auto s v = SFail /\ n_set_float auto s v = SFail /\
+      (forall z, s_pl s = PBool z -> n_set_string s o = SFail) /\
+      (forall x, s_pl s = PStr x -> n_set_bool s v = SFail))) /\
+  (is_number s ->
+     n_get_bool s = 0 /\ n_get_string s = None /\ n_set_bool s v = SFail /\ n_set_string s o = SFail).
+Proof.
+  intros; split; [intros H; split; [apply bool_string_get | apply bool_string_set]; assumption
+                 | apply number_not_bool_string].
+Qed.
+Print Assumptions C07_bool_string_never_convert.
+
+(* ---- the complete table: a setter succeeds exactly on the documented (stored type, kind) pairs;
+   a success keeps the stored type (or gives a NONE setting the kind's type) ---- *)
+Theorem C07_set_table : forall c k a s,
+  match setter c k a s with
+  | SOk s' => set_accepts (auto c) (s_ty s) k (arg_z a) = true /\
+              (s_ty s' = s_ty s \/ (s_ty s = TNone /\ s_ty s' = sk_ty k))
+  | SUnspec => set_accepts (auto c) (s_ty s) k (arg_z a) = true
+  | SFail => set_accepts (auto c) (s_ty s) k (arg_z a) = false
+  end.
+Proof.
+  intros c k a s. pose proof (setter_table c k a s) as H.
+  destruct (setter c k a s) eqn:E; try exact H. split; [exact H|]. eapply setter_keeps_type; eassumption.
+Qed.
+Print Assumptions C07_set_table.
+
+(* a typed lookup succeeds exactly on the documented pairs, and a failing one has no output (the
+   caller's variable is not written) *)
+Theorem C07_get_table : forall c k m,
+  match typed_look c k (Some m) with
+  | RLook ok out => ok = (if get_accepts (auto c) m k then 1 else 0) /\ (ok = 0 -> out = None)
+  | RUnspec => get_accepts (auto c) m k = true
+  | _ => False
+  end.
+Proof. exact typed_look_table. Qed.
+Print Assumptions C07_get_table.
+
+(* ---- a value that was stored is the value read back ---- *)
+Theorem C07_set_get : forall auto s s',
+  (forall v, n_set_int auto s v = SOk s' -> s_ty s <> TFloat -> in_int v = true -> n_get_int auto s' = GOk v) /\
+  (forall v, n_set_int64 auto s v = SOk s' -> s_ty s <> TFloat -> n_get_int64 auto s' = GOk v) /\
+  (forall b, n_set_float auto s b = SOk s' -> s_ty s = TFloat \/ s_ty s = TNone -> n_get_float auto s' = GOk b) /\
+  (forall v, n_set_bool s v = SOk s' -> n_get_bool s' = v) /\
+  (forall o, n_set_string s o = SOk s' -> n_get_string s' = o).
+Proof.
+  intros auto s s'. repeat split; intros.
+  - eapply set_get_int; eassumption.
+  - eapply set_get_int64; eassumption.
+  - eapply set_get_float; eassumption.
+  - eapply set_get_bool; eassumption.
+  - eapply set_get_string; eassumption.
+Qed.
+Print Assumptions C07_set_get.
+
+(* ---- a mismatching get returns 0 / 0.0 / NULL (direct and by-index accessors) or reports failure
+   with no output (by-name and by-path accessors) ---- *)
+Theorem C07_mismatch_get : forall c k m,
+  match typed_look c k (Some m) with
+  | RLook _ (Some v) => getter c k m = v
+  | RLook _ None => getter c k m = zero_ret k
+  | r => getter c k m = r
+  end.
+Proof. exact getter_vs_look. Qed.
+Print Assumptions C07_mismatch_get.
+
+(* ---- a mismatching set reports failure leaving the stored value and type (the whole
+   configuration) unchanged: every setter family ---- *)
+Theorem C07_mismatch_set_unchanged : forall c k p v c' ev,
+  (api_step c (OSet k p v) = (c', RInt 0, ev) -> c' = c /\ ev = []) /\
+  (forall idx, api_step c (OSetElem k p idx v) = (c', RNode None, ev) -> c' = c /\ ev = []).
+Proof.
+  intros; split; [intros H | intros idx H]; eapply fail_atomic; try exact H; reflexivity.
+Qed.
+Print Assumptions C07_mismatch_set_unchanged.
+
+(* ---- identically through the direct, by-name, by-path and by-index accessors: each family applies
+   the same node-level function to the setting it selects ---- *)
+Theorem C07_accessors_agree : forall c k p s,
+  get_at p (c_root c) = Some s ->
+  api_step c (OGet k p) = (c, getter c k s, []) /\
+  (forall name, api_step c (OMLook k p name) = (c, typed_look c k (kid_at s (get_member s name)), [])) /\
+  (forall idx, api_step c (OGetElem k p idx)
+               = (c, elem_getter c k (kid_at s (get_elem s (to_uint32 idx))), [])) /\
+  (forall path, api_step c (OPLook k path)
+                = (c, typed_look c k (match lookup (c_root c) path with
+                                      | Some rel => get_at rel (c_root c) | None => None end), [])) /\
+  (forall e, elem_getter c k (Some e) = getter c k e) /\
+  elem_getter c k None = zero_ret k /\ typed_look c k None = RLook 0 None /\
+  (forall v, api_step c (OSet k p v) =
+             match setter c k v s with
+             | SOk s' => (set_root c (upd_at p (fun _ => s') (c_root c)), RInt 1, [])
+             | SFail => (c, RInt 0, [])
+             | SUnspec => (c, RUnspec, [])
+             end).
+Proof.
+  intros c k p s H.
+  split; [apply step_get; assumption|].
+  split; [intros; apply step_mlook; assumption|].
+  split; [intros; apply step_get_elem; assumption|].
+  split; [intros; apply step_plook|].
+  split; [reflexivity|].
+  split; [apply elem_getter_none|].
+  split; [reflexivity|].
+  intros; apply step_set; assumption.
+Qed.
+Print Assumptions C07_accessors_agree.
+
+(* the by-index setter on an existing element runs the same node-level setter on that element *)
+Theorem C07_set_elem_agrees : forall t st agg idx i e,
+  (s_ty agg = TArray \/ s_ty agg = TList) -> 0 <= idx -> get_elem agg idx = Some i ->
+  nth_error (s_kids agg) i = Some e ->
+  n_set_elem t st agg idx =
+  match st e with
+  | SOk e' => EOk (set_kids agg (list_upd i (fun _ => e') (s_kids agg))) i
+  | SFail => EFail
+  | SUnspec => EUnspec
+  end.
+Proof. exact set_elem_existing. Qed.
+Print Assumptions C07_set_elem_agrees.
